@@ -8,7 +8,28 @@ mod wasmgen;
 mod c46;
 mod c47;
 
+#[cfg(all(target_os = "linux", target_env = "gnu"))]
+fn keep_freed_memory() {
+    // Every WASM instance zero-fills a fresh 64 KiB linear memory; glibc hands freed heap tops back to the kernel
+    // (trim / madvise) and each re-allocation then page-faults again, which dominates the run time on this VM.
+    // Ask glibc to keep freed memory. Purely a performance knob of the harness process.
+    extern "C" {
+        fn mallopt(param: i32, value: i32) -> i32;
+    }
+    const M_TRIM_THRESHOLD: i32 = -1;
+    const M_TOP_PAD: i32 = -2;
+    const M_MMAP_THRESHOLD: i32 = -3;
+    unsafe {
+        mallopt(M_TRIM_THRESHOLD, 512 << 20);
+        mallopt(M_TOP_PAD, 16 << 20);
+        mallopt(M_MMAP_THRESHOLD, 32 << 20);
+    }
+}
+#[cfg(not(all(target_os = "linux", target_env = "gnu")))]
+fn keep_freed_memory() {}
+
 fn main() {
+    keep_freed_memory();
     let ctx = Ctx::from_args();
     match ctx.id.as_str() {
         "C45" => c45::run(ctx),
